@@ -1361,6 +1361,11 @@ func (ls *LState) Replace(idx int, value LValue) {
 				ls.RaiseError("_G must be a table(%v)", value.Type().String())
 			}
 		default:
+			if ls.currentFrame == nil {
+				// no function is running, so there is no upvalue to replace: ignored like an index
+				// beyond the upvalues of the running function (Get reads both as nil)
+				return
+			}
 			fn := ls.currentFrame.Fn
 			index := GlobalsIndex - idx - 1
 			if index < len(fn.Upvalues) {
